@@ -3,6 +3,7 @@ package wworld
 import (
 	"encoding/hex"
 	"fmt"
+	"github.com/btcsuite/btcd/btcec/v2"
 	"path/filepath"
 	"strings"
 	"sync"
@@ -231,6 +232,9 @@ func (ww *WW) dleqAudit(where string) {
 	}
 }
 
+// the preimage of every HTLC the wallets of a world make (known to all of them: the property at stake is bookkeeping)
+const htlcPreimage = "aa11bb22cc33dd44ee55ff6600112233445566778899aabbccddeeff00112233"
+
 // Exec runs one wallet-world operation and records the event.
 func (ww *WW) Exec(op Op) *Event {
 	ws := ww.Wallets[op.W]
@@ -263,7 +267,7 @@ func (ww *WW) Exec(op Op) *Event {
 		r["amount"] = int(minted)
 		return ww.emit("mint", map[string]any{"w": op.W, "m": op.M, "amt": int(op.Amt)}, r)
 
-	case "send", "sendlocked":
+	case "send", "sendlocked", "sendhtlc":
 		ms := ww.Mints[op.M]
 		var proofs cashu.Proofs
 		locked := ""
@@ -271,6 +275,15 @@ func (ww *WW) Exec(op Op) *Event {
 			var e error
 			if op.Op == "send" {
 				proofs, e = ws.W.Send(op.Amt, ms.URL, op.Fees)
+			} else if op.Op == "sendhtlc" {
+				// hash-locked ecash; with To set, additionally locked to that wallet's key (n_sigs 1)
+				locked = "htlc"
+				var tags *nut11.P2PKTags
+				if op.To != "" {
+					tags = &nut11.P2PKTags{NSigs: 1, Pubkeys: []*btcec.PublicKey{ww.Wallets[op.To].W.GetReceivePubkey()}}
+					locked = "htlc:" + op.To
+				}
+				proofs, e = ws.W.HTLCLockedProofs(op.Amt, ms.URL, htlcPreimage, tags, op.Fees)
 			} else {
 				to := ww.Wallets[op.To]
 				locked = "p2pk:" + op.To
@@ -318,7 +331,11 @@ func (ww *WW) Exec(op Op) *Event {
 		}
 		err, pan, msg := ww.guard(func() error {
 			var e error
-			got, e = ws.W.Receive(t.Token, op.Swap)
+			if strings.HasPrefix(t.Locked, "htlc") {
+				got, e = ws.W.ReceiveHTLC(t.Token, htlcPreimage)
+			} else {
+				got, e = ws.W.Receive(t.Token, op.Swap)
+			}
 			return e
 		})
 		setScriptClear(ww.Mints[t.Mint].W, "*")
@@ -329,6 +346,9 @@ func (ww *WW) Exec(op Op) *Event {
 			t.Taken = true
 		}
 		lockclass := "plain"
+		if strings.HasPrefix(t.Locked, "htlc") {
+			lockclass = "htlc"
+		}
 		if strings.HasPrefix(t.Locked, "p2pk") {
 			lockclass = "p2pk"
 			if strings.HasSuffix(t.Locked, ":sigall") {
